@@ -170,15 +170,20 @@ example : reduceThresholds [("monotonicity_threshold", 4/5), ("min_n_cycles", 3)
 theorem C14_routing : ∀ r ∈ Routing.object, Routing.holds Slots.routes r = true := by decide +kernel
 
 open Obj in
-/-- HISTORIES MEET THE TABLE: the object machine instantiated with the MODELLED pipeline (`pipelineCycles`: extrema, midpoints, shape and burst features, labels). Whatever
-sequence of fits, edge recomputations, loads, edits and plots preceded it, a fit that succeeds stores exactly the pipeline's output for the CURRENT settings (centring,
-extrema options, thresholds with their defaults), and that table is a well-formed segmentation (C01) of the recording just fitted. -/
-theorem C14_fit_is_pipeline (rc : PipeOut → KV → Except Err PipeOut) (o : Obj Recording PipeOut) (ops : List (Op Recording PipeOut)) (r : Recording)
+/-- HISTORIES MEET THE TABLE: the object machine instantiated with the MODELLED pipelines (`pipelineCycles` for the consistency method, `pipelineAmp` for the amplitude
+method: extrema, midpoints, shape features, burst features resp. burst fractions, labels). Whatever sequence of fits, edge recomputations, loads, edits and plots preceded
+it, a fit that succeeds stores exactly the pipeline's output for the CURRENT settings (burst method, centring, extrema options, thresholds and burst options with their
+defaults), and that table is a well-formed segmentation (C01) of the recording just fitted. -/
+theorem C14_fit_is_pipeline (rc : Table → KV → Except Err Table) (o : Obj Recording Table) (ops : List (Op Recording Table)) (r : Recording)
     (hdone : (step (pipelineApi rc) (run (pipelineApi rc) o ops) (.fit r)).2 = .done) :
     let cur := ops.foldl editSettings o.st
     ∃ t, (step (pipelineApi rc) (run (pipelineApi rc) o ops) (.fit r)).1.df = some t ∧
-      cur.cycles = true ∧
-      pipelineCycles (centreOf cur) r.x (r.pad cur.fek) (r.b cur.fek (centreOf cur)) r.amp (r.bd cur.fek) (cycThreshOf cur.thresholds) = .ok t ∧
+      ((cur.cycles = true ∧ ∃ oc, t = .cycles oc ∧
+          pipelineCycles (centreOf cur) r.x (r.pad cur.fek) (r.b cur.fek (centreOf cur)) r.amp (r.bd cur.fek) (cycThreshOf cur.thresholds) = .ok oc) ∨
+       (cur.cycles = false ∧ ∃ oa, t = .amp oa ∧
+          pipelineAmp (centreOf cur) r.x (r.pad cur.fek) (r.b cur.fek (centreOf cur)) r.amp (r.bd cur.fek) (cur.burstKwargs.lookup "min_n_cycles")
+            (cur.thresholds.lookup "min_n_cycles") (cur.burstKwargs.lookup "min_burst_duration") (r.detMask cur.burstKwargs)
+            (lookupD cur.thresholds "burst_fraction_threshold" Slots.ampDefaultThreshold) = .ok oa)) ∧
       ((r.b cur.fek (centreOf cur)).length = r.x.length + 2 * r.pad cur.fek → wellFormed t.samples r.x.length (r.bd cur.fek)) :=
   fit_is_pipeline rc o ops r hdone
 
@@ -192,13 +197,20 @@ theorem C14_group_fit_per_signal {S T : Type} (A : Api S T) (g : GObj S T) (xs :
         (gstep A (perSignal A.cf) g (.fit xs)).1.models[i]? = some m ∧ m.df = some t ∧ m.sig = some x ∧ m.st = g.st :=
   group_fit_per_signal A g xs hdone
 
-/-- non-vacuity: a fit on the modelled pipeline that succeeds (the 22-sample recording of C01's example, default thresholds except a minimum of one cycle). -/
+/-- non-vacuity: fits on the modelled pipelines that succeed, one per burst method (the 22-sample recording of C01's example; loose thresholds, a minimum of one cycle). -/
+def exampleRecording : Obj.Recording :=
+  ⟨[0, 1, 3, 3, 1, -1, -2, -2, 0, 1, 2, 1, -1, -1, 0, 2, 1, -3, -1, 0, 1, 2], fun _ => 0,
+   fun _ _ => ([0,0,1,1,1,1,0,0,0,0,1,1,1,0,0,1,1,0,0,0,1,1] : List Nat).map (· == 1), fun _ => 0,
+   [1, 1, 1, 1, 1, 1, 1, 1, 1, 1, 1, 1, 1, 1, 1, 1, 1, 1, 1, 1, 1, 1],
+   fun _ _ => ([0,0,0,0,1,1,1,1,1,1,1,1,1,1,1,1,1,1,0,0,0,0] : List Nat).map (· == 1)⟩
+
 example :
     (Obj.step (Obj.pipelineApi fun t _ => .ok t)
-      (Obj.construct (S := Obj.Recording) (T := PipeOut) true true none (some [("min_n_cycles", 1), ("monotonicity_threshold", 0), ("amp_consistency_threshold", 0), ("period_consistency_threshold", 0)]) none true)
-      (.fit ⟨[0, 1, 3, 3, 1, -1, -2, -2, 0, 1, 2, 1, -1, -1, 0, 2, 1, -3, -1, 0, 1, 2], fun _ => 0,
-             fun _ _ => ([0,0,1,1,1,1,0,0,0,0,1,1,1,0,0,1,1,0,0,0,1,1] : List Nat).map (· == 1), fun _ => 0,
-             [1, 1, 1, 1, 1, 1, 1, 1, 1, 1, 1, 1, 1, 1, 1, 1, 1, 1, 1, 1, 1, 1]⟩)).2 = .done := by
+      (Obj.construct (S := Obj.Recording) (T := Obj.Table) true true none (some [("min_n_cycles", 1), ("monotonicity_threshold", 0), ("amp_consistency_threshold", 0), ("period_consistency_threshold", 0)]) none true)
+      (.fit exampleRecording)).2 = .done ∧
+    (Obj.step (Obj.pipelineApi fun t _ => .ok t)
+      (Obj.construct (S := Obj.Recording) (T := Obj.Table) false false none (some [("burst_fraction_threshold", 1/2), ("min_n_cycles", 1)]) none true)
+      (.fit exampleRecording)).2 = .done := by
   decide +kernel
 
 end Bycycle
